@@ -20,7 +20,7 @@ def warmup(o, rng, n=None, phos=True):
     k = n if n is not None else rng.randint(2, 6)
     # stateful scenarios first (each fills a cache / sets state that must stay unobservable), then random calls
     sty = [i + 1 for i, r in enumerate(seq) if r in "STY"]
-    scen = rng.choice(["phos", "phos", "cache", "perm", "defaults", "dist", "none"])
+    scen = rng.choice(["phos", "phos", "cache", "perm", "defaults", "dist", "moves", "none"])
     pre = []
     if scen in ("phos", "dist") and sty and phos:
         pre.append({"call": "set_phosphosites", "sites": rng.sample(sty, min(len(sty), rng.randint(1, 3)))})
@@ -31,6 +31,9 @@ def warmup(o, rng, n=None, phos=True):
         pre += [{"call": "get_kappa"}, {"call": "get_Omega"}]
     elif scen == "perm":
         pre += [{"call": "get_deltaMaxPerm"}, {"call": "get_shuffled_sequence"}]
+    elif scen == "moves" and N >= 2:
+        i1, i2 = rng.sample(range(N), 2)
+        pre += [{"call": "backend_swapRes", "i": i1, "j": i2}, {"call": "backend_swapRandChargeRes"}, {"call": "backend_full_shuffle"}]
     elif scen == "defaults":
         pre += [{"call": "get_linear_composition", "w": rng.randint(1, N)}, {"call": "get_linear_composition", "w": rng.randint(1, N)}]
     for c in pre:
@@ -70,6 +73,12 @@ def apply_call(o, c):
     n = c["call"]
     if n == "get_deltaMaxPerm":
         return common.call(o.get_deltaMax, True)
+    if n == "backend_swapRes":
+        return common.call(o.SeqObj.swapRes, c["i"], c["j"])          # a permutant is derived; the object itself must not change
+    if n == "backend_swapRandChargeRes":
+        return common.call(o.SeqObj.swapRandChargeRes)
+    if n == "backend_full_shuffle":
+        return common.call(o.SeqObj.full_shuffle)
     if n in ("get_linear_NCPR", "get_linear_sigma", "get_linear_hydropathy", "get_linear_FCR"):
         return common.call(getattr(o, n), c["w"])
     if n == "get_linear_composition":
